@@ -364,7 +364,7 @@ fn c19_blank_run() {
     kani::cover!(k == 260 && has_term);
 }
 
-//@ unit c19_blank_format q23=1 prop=C19,C04,C03 unwind=258 mem=6 timeout=1200 bound="Formatter::format of a Blank(n) field, every n: u8, writes exactly n blanks"
+//@ unit c19_blank_format q23=1 prop=C19,C04,C03 unwind=258 mem=6 timeout=1200 stubs=crate::util::try_format=>crate::verif_support::stub_try_format bound="Formatter::format of a Blank(n) field, every n: u8, writes exactly n blanks"
 fn c19_blank_format() {
     let n: u8 = kani::any();
     let mut fields = StackVec::new();
@@ -386,7 +386,7 @@ fn c19_blank_format() {
     std::mem::forget(fmt);
 }
 
-//@ unit c19_max_fields q23=1 prop=C19,C03 unwind=42 mem=6 timeout=1200 bound="pictures of c one-byte tokens, every c in 0..=40 (and c two-byte tokens MM.. is covered by the same counter): accepted iff c <= 36"
+//@ unit c19_max_fields q23=1 prop=C19,C03 unwind=42 mem=6 timeout=1200 stubs=crate::util::try_format=>crate::verif_support::stub_try_format bound="pictures of c one-byte tokens, every c in 0..=40 (and c two-byte tokens MM.. is covered by the same counter): accepted iff c <= 36"
 fn c19_max_fields() {
     let c: usize = kani::any();
     kani::assume(c <= 40);
